@@ -897,6 +897,8 @@ pub fn op(name: &str, op: &str) -> String {
             "dec" => shapes::dec(name, &unhex(s.first().copied().unwrap_or("-"))),
             // `pdec <hex of the enc op> <hex>`: permuted fields / unknown extra fields
             "pdec" => shapes::dec(name, &unhex(s.get(1).copied().unwrap_or("-"))),
+            // is this shape meant to be a well-formed declaration (pairwise different tags)?
+            "wf" => if shapes::ILL_FORMED.contains(&name) { "F".into() } else { "T".into() },
             _ => "BADOP".into(),
         };
     }
@@ -927,15 +929,15 @@ fn gen_num(r: &mut Rng, bytes: usize, dom: &Dom, nullable: bool) -> u64 {
     match dom {
         Dom::OneOf(vs) => *r.pick(vs),
         Dom::Mask(m) => {
-            // no flag, all flags, a subset; 1 in 3 (when the type has undeclared bits): a bit outside the
+            // no flag, all flags, a subset; 1 in 12 (when the type has undeclared bits): a bit outside the
             // declared flags (`from_bits_retain`: the encoder writes it, the decoder must refuse it — no
             // round-trip claim)
             let full: u64 = if bytes >= 8 { u64::MAX } else { (1u64 << (8 * bytes)) - 1 };
             let m = *m & full;
-            let mut v = match r.below(6) {
+            let mut v = match r.below(12) {
                 0 => 0,
-                1 => m,
-                2 | 3 if m != full => {
+                1 | 2 => m,
+                3 if m != full => {
                     let mut bit = 0u64;
                     for _ in 0..64 {
                         let b = 1u64 << r.below(8 * bytes as u64);
@@ -1166,7 +1168,7 @@ fn gen_shape(r: &mut Rng) -> (String, Vec<String>) {
     let (ty, decl) = shapes::info(name).expect("shape");
     let v = gen_val(r, &ty, false);
     let enc_op = format!("enc {}", show(&v));
-    let mut ops = vec![enc_op.clone()];
+    let mut ops = vec!["wf".to_string(), enc_op.clone()];
     let o = op(name, &enc_op);
     if let Some(h) = o.strip_prefix("ok:") {
         ops.push(format!("dec {}", h));
